@@ -5,6 +5,11 @@ Hand-written; part of the trusted base.
 import Flussab.Model.LineReader
 
 namespace Flussab
+/-- A parked `io::Error` as a value (only its presence matters). -/
+inductive IoErrP where
+  | io
+deriving Repr, DecidableEq, Inhabited
+
 namespace PMExt
 open PM
 
@@ -16,6 +21,22 @@ def assert (c : Bool) : PM Unit := if c then pure () else rpanic "assert"
 
 /-- `a - b` on `usize` with the debug-build overflow check. -/
 def usub (a b : Nat) : PM Nat := if b ≤ a then pure (a - b) else rpanic "usize subtraction overflow"
+
+/-- `a + b` on `usize` with the debug-build overflow check. -/
+def uadd (a b : Nat) : PM Nat := if a + b > usizeMax then rpanic "usize addition overflow" else pure (a + b)
+
+/-- `reader.check_io_error()`: the parked error is taken. -/
+def checkIoError : PM (Except IoErrP Unit) := do
+  let lr ← get
+  let (e, v') := lr.v.checkIoError
+  set { lr with v := v' }
+  pure (if e then .error .io else .ok ())
+
+/-- `err.into()` for a parked `io::Error`: the final outcome `io`. -/
+def throwIo {α : Type} : PM α := throw .io
+
+/-- `SyntaxError { location: LineColumn { line, column }, .. }.into()`. -/
+def throwSyn {α : Type} (line column : Nat) : PM α := throw (.syn line column)
 
 def liftOpt {α : Type} (o : Option α) : PM α :=
   match o with
